@@ -161,7 +161,7 @@ func lifeScenario(kind, what string, rng *rand.Rand) {
 func modeLife(thorough bool) {
 	onlyEvents = map[string]bool{}
 	rng := rand.New(rand.NewSource(seed))
-	kinds := []string{"udp", "tcp", "tcp+pipeline", "tls", "tls+pipeline", "https", "quic"}
+	kinds := []string{"udp", "tcp", "tcp+pipeline", "tls", "tls+pipeline", "https", "quic", "h3"}
 	whats := []string{"idle", "inflight", "latedial", "timeout-then-close", "blackhole"}
 	// sequential: the socket census is process wide
 	for _, k := range kinds {
@@ -169,7 +169,7 @@ func modeLife(thorough bool) {
 			if k == "udp" && w == "latedial" {
 				continue
 			}
-			if w == "blackhole" && k != "quic" {
+			if w == "blackhole" && k != "quic" && k != "h3" {
 				continue
 			}
 			lifeScenario(k, w, rng)
